@@ -195,9 +195,11 @@ def _enc_view(enc, s):
 
 def oracle(c):
     op = c["op"]
-    if op == "seq":
+    if op in ("seq", "fresh"):
         res = [oracle(sub) for sub in c["calls"]]
         return SKIP if any(isinstance(r, core.Skip) for r in res) else {"results": res}
+    if op == "translate_custom":
+        return {"any": True}      # what a user table returns is not the property's business; what follows it is
     if op == "rc":
         views = [_enc_view(c["enc"], r) for r in c["rows"]]
         if any(v is None for v in views):
@@ -243,7 +245,7 @@ def oracle(c):
     raise ValueError(op)
 
 
-def _transcripts_expect(seq, ex):
+def _transcripts_expect(seq, ex, per_transcript=False):
     seq = _enc_view("ACGTN", seq)
     if seq is None:
         return SKIP
@@ -253,6 +255,15 @@ def _transcripts_expect(seq, ex):
     for t, st, a, b in ex:
         if not (0 <= a <= b <= len(seq)) or st not in (43, 45):
             return SKIP
+        if per_transcript:
+            g = next((g for g in groups if g[0] == t), None)
+            if g is not None:
+                if g[1] != st:
+                    return SKIP
+                g[2].extend(seq[a:b])
+                continue
+            groups.append([t, st, list(seq[a:b]), b])
+            continue
         if groups and groups[-1][0] == t:
             if groups[-1][1] != st or a < groups[-1][3]:
                 return SKIP        # one strand per transcript, exons in ascending order
@@ -264,9 +275,16 @@ def _transcripts_expect(seq, ex):
 
 
 def agree(c, got, exp):
+    if isinstance(exp, dict) and exp.get("any"):
+        return True
+    if c["op"] == "transcripts" and c["via"] == "duck" and core.canon(got) != core.canon(exp):
+        # exon lines of one transcript that are not adjacent: one entry per run of adjacent lines (what the code does) or one
+        # entry per transcript with all its exons in file order are both exact answers
+        alt = _transcripts_expect(c["seq"], c["exons"], per_transcript=True)
+        return isinstance(alt, dict) and core.canon(got) == core.canon(alt)
     if isinstance(exp, dict) and exp.get("err_any"):
         return isinstance(got, dict) and "err" in got
-    if c["op"] == "seq":
+    if c["op"] in ("seq", "fresh"):
         g = got.get("results") if isinstance(got, dict) else None
         return isinstance(g, list) and len(g) == len(exp["results"]) and \
             all(agree(sub, a, b) for sub, a, b in zip(c["calls"], g, exp["results"]))
@@ -274,8 +292,12 @@ def agree(c, got, exp):
         # judged against the bounds the package itself parsed from the file
         if len(got["bounds"]) != len(c["exons"]):
             return False
-        e2 = _transcripts_expect(c["seq"], [[e[0], e[1], b[0], b[1]] for e, b in zip(c["exons"], got["bounds"])])
-        return isinstance(e2, dict) and got.get("names") == e2["names"] and got.get("rows") == e2["rows"]
+        ex2 = [[e[0], e[1], b[0], b[1]] for e, b in zip(c["exons"], got["bounds"])]
+        for alt in (False, True):
+            e2 = _transcripts_expect(c["seq"], ex2, per_transcript=alt)
+            if isinstance(e2, dict) and got.get("names") == e2["names"] and got.get("rows") == e2["rows"]:
+                return True
+        return False
     if "rows_or_encoding_error" in exp:
         if isinstance(got, dict) and got.get("err") == "encoding":
             return True
@@ -456,11 +478,20 @@ def _call(c):
         else:
             from bionumpy.genomic_data.genomic_sequence import GenomicSequence
             backend = c.get("backend", "dict")
+            other = None
+            if "alive" in c:       # a second object of the same kind, with other sequences under the same names, made first ...
+                other = GenomicSequence.from_dict({n: _text(s) for n, s in zip(names, c["alive"])}) if backend != "fasta" \
+                    else _fasta_genome(names, c["alive"], c.get("width", 60))[0]
             if backend == "fasta":
                 gs, genome = _fasta_genome(names, c["seqs"], c.get("width", 60))
             else:
                 gs = GenomicSequence.from_dict({n: _text(s) for n, s in zip(names, c["seqs"])})
                 genome = None
+            if other is not None:  # ... and used in between
+                try:
+                    other.extract_intervals(bed, stranded=True)
+                except Exception:
+                    pass
             if c.get("entry") == "getitem":
                 # genomic_sequence[intervals]: stranded iff the interval object says so
                 if genome is None:
@@ -491,6 +522,24 @@ def _call(c):
         else:
             r = translate_dna_to_protein(texts)
         return r, (lambda o: {"rows": _rows_out(o, None)[0]})
+    if op == "translate_custom":
+        from bionumpy.sequence.translate import Translate, DNAToProtein
+        from bionumpy.encodings import BaseEncoding
+        aa = c["amino_acids"]
+        kind = c.get("kind", "amino_only")
+        if kind == "amino_only":        # a user table that only overrides the amino-acid string
+            T = type("UserTable", (DNAToProtein,), {"amino_acids": aa})
+            table = T()
+        elif kind == "subclass":        # a user table that overrides the lookup as well
+            T = type("UserTable2", (DNAToProtein,), {"amino_acids": aa,
+                     "_lookup": EncodedArray(np.array([ord(x) for x in aa], dtype=np.uint8), BaseEncoding)})
+            table = T()
+        else:                           # an instance with its own lookup
+            table = DNAToProtein()
+            table.amino_acids = aa
+            table._lookup = EncodedArray(np.array([ord(x) for x in aa], dtype=np.uint8), BaseEncoding)
+        r = Translate(table=table).windowed([_text(r_) for r_ in c["rows"]])
+        return r, (lambda o: {"ignored": True})
     if op == "transcripts":
         from bionumpy.sequence.genes import get_transcript_sequences
         ref = _text(c["seq"])
@@ -517,7 +566,37 @@ def _err(e):
     return {"err": "encoding"} if isinstance(e, Err) else {"err": "other:" + type(e).__name__}
 
 
+def _fresh(c):
+    """run a call sequence in a NEW interpreter (what the first use in a process initialises; class-level state)"""
+    import json, os, subprocess, sys
+    code = ("import sys, json; sys.path.insert(0, %r); from harness import core; core.import_bionumpy(); "
+            "from harness.props import c14 as m; print('RESULT' + json.dumps(m.impl(json.loads(sys.argv[1])), default=core._np_default))"
+            % str(core.VERIF))
+    p = subprocess.run([sys.executable, "-c", code, json.dumps({"op": "seq", "calls": c["calls"]})], capture_output=True,
+                       text=True, timeout=120, env=dict(os.environ))
+    for line in p.stdout.splitlines():
+        if line.startswith("RESULT"):
+            return json.loads(line[6:])
+    return {"err": "other:fresh-process-failed"}
+
+
+def mutate_live(obj, c):
+    """the caller overwrites a result it was given; the same call must not notice"""
+    try:
+        target = obj.sequence if hasattr(obj, "sequence") else obj
+        flat = target.ravel()
+        data = flat.raw() if hasattr(flat, "raw") else np.asarray(flat)
+        if data.size:
+            data[...] = data[::-1].copy() if data.size > 1 and (data != data[::-1]).any() else (data + 1) % 4
+            return True
+    except Exception:
+        pass
+    return False
+
+
 def impl(c):
+    if c["op"] == "fresh":
+        return _fresh(c)
     if c["op"] == "seq":
         # several calls in one process; every result is read only AFTER the last call (a result that aliases a shared /
         # cached output buffer is silently overwritten by the later call)
@@ -632,7 +711,7 @@ def _codes(enc, s):
 
 def model_request(c):
     op = c["op"]
-    if op == "seq":
+    if op in ("seq", "fresh", "translate_custom"):
         return None      # the Lean model is pure: a sequence of calls is the list of the single calls (compared there)
     if op == "rc":
         return {"op": "rc", "enc": c["enc"], "codes": [_codes(c["enc"], r) for r in c["rows"]],
@@ -665,10 +744,12 @@ def _small_calls(rng, n):
     while len(out) < n:
         kind = rng.choice(["rc", "rc", "translate", "translate", "strand", "transcripts"])
         if kind == "rc":
-            enc = rng.choice(PROP_ENCS)
+            enc = rng.choice(PROP_ENCS + ["ACTG", "ACTGN"])
             A = _alpha(enc)
             rows = [[rng.choice(A) for _ in range(rng.choice([0, 1, 2, 3, 5, 8]))] for _ in range(rng.choice([1, 1, 2, 3]))]
             shape = rng.choice(["ragged", "ragged", "entry", "flat"] + (["str"] if enc == "ASCII" else []))
+            if enc in ("ACTG", "ACTGN"):
+                rows = [[b for b in r if b < 97] for r in rows]
             if shape == "flat":
                 rows = rows[:1]
             out.append({"op": "rc", "enc": enc, "rows": rows, "shape": shape})
@@ -705,6 +786,26 @@ def _size(c):
         sum(e[3] - e[2] for e in c.get("exons", []))
 
 
+_MITO = "FFLLSSSSYY**CCWWLLLLPPPPHHQQRRRRIIMMTTTTNNKKSS**VVVVAAAADDEEGGGG"      # NCBI table 2, TCAG order
+_YEAST = "FFLLSSSSYY**CCWWTTTTPPPPHHQQRRRRIIMMTTTTNNKKSSRRVVVVAAAADDEEGGGG"     # NCBI table 3
+
+
+def _custom_table_sequences(rng, n):
+    """a user codon table (public extension point Translate(table=...)) used before / between standard translations"""
+    up = [84, 67, 65, 71]
+    codons = [list(cd) for cd in itertools.product(up, repeat=3)]
+    for _ in range(n):
+        aa = rng.choice([_MITO, _YEAST, "".join(rng.choice("ACDEFGHIKLMNPQRSTVWY*") for _ in range(64))])
+        kind = rng.choice(["amino_only", "amino_only", "subclass", "instance"])
+        custom = {"op": "translate_custom", "amino_acids": aa, "kind": kind,
+                  "rows": [[b for cd in rng.sample(codons, 3) for b in cd], list(rng.choice(codons))]}
+        std_all = {"op": "translate", "rows": [[b for cd in codons for b in cd]], "via": "list"}
+        std_some = {"op": "translate", "rows": [list(cd) for cd in rng.sample(codons, 5)] + [[84, 71, 65, 65, 84, 65, 65, 71, 65, 65, 71, 71]],
+                    "via": rng.choice(["list", "entry", "ragged"])}
+        order = rng.choice([[custom, std_all, std_some], [std_some, custom, std_all], [custom, std_some, custom, std_all]])
+        yield order
+
+
 def _sequences(rng, n_seq):
     """explicit call sequences: same function and same encoding with the LATER input no larger than the earlier one
     (an output buffer shared between calls is overwritten in place), A-B-A, and mixed sequences"""
@@ -735,6 +836,14 @@ def cases(tier, rng):
     big = tier in ("thorough", "widen")
     # 0. call sequences (history) -- results are read after the last call
     yield from _sequences(rng, 2000 if big else 300)
+    for calls in _custom_table_sequences(rng, 40 if big else 8):
+        yield {"op": "seq", "calls": calls}
+    # 0'. the same in a NEW interpreter: whatever the FIRST use in a process initialises (lazily built class-level tables,
+    #     caches) must not leak into the standard functions; also two alphabets of the same size one after the other
+    for calls in _custom_table_sequences(rng, 6 if big else 3):
+        rc = [{"op": "rc", "enc": e, "rows": [[rng.choice(_alpha(e)) for _ in range(5)], []], "shape": "ragged"} for e in ("ACTG", "ACGT", "ACTGN", "ACGTN")]
+        rng.shuffle(rc)
+        yield {"op": "fresh", "calls": calls + rc}
     # 0b. fresh, not yet materialised views as inputs: ragged sequence arrays and interval tables
     for c in _small_calls(rng, 4000 if big else 600):
         if c["op"] == "rc" and c.get("shape") in ("ragged", "entry", "str"):
@@ -876,6 +985,9 @@ def cases(tier, rng):
             if enc == "ACGTN":
                 yield {"op": "strand", "enc": enc, "via": "unstranded", "seqs": ss, "ivs": ivs}
                 yield {"op": "strand", "enc": enc, "via": rng.choice(["genomic", "unstranded"]), "seqs": ss, "ivs": ivs, "entry": "getitem"}
+                other = [[rng.choice(A) for _ in range(len(x))] for x in ss]      # same names and lengths, other letters
+                yield {"op": "strand", "enc": enc, "via": "genomic", "seqs": ss, "ivs": ivs, "alive": other,
+                       **({"backend": "fasta", "width": rng.choice([3, 60])} if rng.random() < 0.3 else {})}
                 if rng.random() < 0.5:
                     yield {"op": "strand", "enc": enc, "via": rng.choice(["genomic", "genomic", "unstranded"]), "seqs": ss, "ivs": ivs,
                            "backend": "fasta", "width": rng.choice([1, 3, 4, 7, 60]),
@@ -907,6 +1019,26 @@ def cases(tier, rng):
                 pos = b
             t += 1
         yield {"op": "transcripts", "seq": s, "exons": exons, "via": "duck"}
+    # exon lines of two or three transcripts interleaved (coordinate-sorted annotation with overlapping transcripts)
+    for _ in range(300 if big else 40):
+        s = [rng.choice(A) for _ in range(rng.choice([6, 10, 16, 25]))]
+        n = len(s)
+        ntr = rng.choice([2, 2, 3])
+        strands = [rng.choice([43, 45]) for _ in range(ntr)]
+        pos = [0] * ntr
+        exons = []
+        order = [rng.randrange(ntr) for _ in range(rng.choice([3, 4, 5, 6]))]
+        for t in order:
+            if pos[t] > n:
+                continue
+            a = rng.randrange(pos[t], n + 1)
+            b = min(n, a + rng.choice([1, 1, 2, 3, 4]))
+            exons.append([t, strands[t], a, b])
+            pos[t] = b
+        if len({e[0] for e in exons}) >= 2:
+            yield {"op": "transcripts", "seq": s, "exons": exons, "via": "duck"}
+    yield {"op": "transcripts", "seq": [ord(ch) for ch in "ACGTNACGTNACGTTGCA"], "via": "gtf",
+           "exons": [[0, 43, 1, 4], [1, 45, 3, 8], [0, 43, 9, 12], [1, 45, 12, 16]]}
     for exons in ([[0, 43, 0, 3], [0, 43, 4, 6], [1, 45, 1, 4]], [[0, 45, 0, 1]]):
         yield {"op": "transcripts", "seq": [ord(ch) for ch in "ACGTNACGTN"], "exons": exons, "via": "gtf"}
     # 5. translation: all 64 codons, upper and lower and mixed case; pairs; concatenations; ragged with empty rows
@@ -951,7 +1083,7 @@ def cases(tier, rng):
 
 def nontrivial(c):
     op = c["op"]
-    if op in ("seq", "rc_unsupported", "chrom"):
+    if op in ("seq", "fresh", "translate_custom", "rc_unsupported", "chrom"):
         return True
     if op == "rc":
         flat = [b for r in c["rows"] for b in r]
@@ -970,13 +1102,15 @@ def _has_nul(got):
 def finding_key(c, got, exp):
     """names the failing input class"""
     op = c["op"]
-    if op == "seq":
+    if op in ("seq", "fresh"):
         g = got.get("results") if isinstance(got, dict) else None
         if isinstance(g, list) and len(g) == len(c["calls"]):
             for sub, a, b in zip(c["calls"], g, exp["results"]):
                 if not agree(sub, a, b):
                     if agree(sub, impl(sub), b):
-                        return f"history:{sub['op']}:result-changed-after-a-later-call"
+                        if any(x["op"] == "translate_custom" for x in c["calls"]):
+                            return "history:translate:wrong-after-a-user-codon-table-was-used"
+                        return f"history:{sub['op']}:result-changed-after-a-later-call" + (":fresh-process" if op == "fresh" else "")
                     return finding_key(sub, a, b)
         return "history:sequence"
     if "view" in c:
